@@ -13,7 +13,7 @@ RULE = ("one evaluation = one (tree, direction, choice vector): direction 1 = li
         "or direction 1 with a secondary token / packed string / JID; distinct by (tree hash, direction, vector)")
 ASSUMPTIONS = ["the reference codec is our reading of the format; it must reproduce the byte strings pinned in the repository's coder tests and round-trip with itself, else the run is inconclusive",
                "the token tables are a frozen copy of the pinned tree (independent in time, not in origin)"]
-REQUIRED = ["dir1", "dir2", "dir2_noncanonical", "dict_entries", "selftest_vectors", "anchor_ok", "full_product_trees",
+REQUIRED = ["layer_histories", "layer_history_ok", "layer_history_refusals", "dir1", "dir2", "dir2_noncanonical", "dict_entries", "selftest_vectors", "anchor_ok", "full_product_trees",
             "choice:content:s:tok", "choice:frame:deflate", "choice:list:l16", "choice:value:raw31"]
 TIMEOUT = {"quick": 900, "thorough": 7200}
 
@@ -74,6 +74,88 @@ def dir1(acc, cid, tree, enc):
             acc.count("dir1_bytes_identical_to_canonical")
     except Exception:
         pass
+
+
+def layer_histories(acc, seed, n):
+    """The bytes the library emits, as emitted by the coder layer in use: sequences of sends through one YowCoderLayer in which
+    some stanzas are refused (a value the encoder cannot write). (A send nested inside another send of the same thread is not
+    part of this: the layer lock is not re-entrant, the library never does it.) Every frame that reaches the wire must be a valid encoding of exactly
+    the stanza whose send produced it."""
+    from vf.probes import Probe
+    from yowsup.stacks import YowStack
+    from yowsup.layers.coder import YowCoderLayer
+    from yowsup.structs import ProtocolTreeNode
+    for k in range(n):
+        r = gen.rng(seed, ID, "layerhist/%d" % k)
+        wire = Probe("wire", forward_down=False)
+        top = Probe("top")
+        st = YowStack((wire, YowCoderLayer, top), reversed=False)
+        expected = []
+        nested = []
+
+        def on_send(data):
+            if nested:
+                t_ = nested.pop()
+                expected.append(t_)
+                top.send(treeeq.to_node(t_))
+        wire.on_send = on_send
+        acc.count("layer_histories")
+        ops = []
+        for j in range(r.randint(2, 8)):
+            c = r.random()
+            if c < 0.25:
+                ops.append("refused")
+                bad = ProtocolTreeNode("iq", {"id": None, "type": "get"})       # an attribute without value cannot be written
+                try:
+                    top.send(bad)
+                    acc.count("layer_history_refused_but_accepted")
+                except Exception:
+                    acc.count("layer_history_refusals")
+            else:
+                t = small_trees(r)
+                if False:
+                    ops.append("nested")
+                    nested.append(small_trees(r))
+                    # order on the wire: the outer stanza's frame is handed down first, the nested send happens inside that call
+                    expected.append(t)
+                    # (on_send appends the nested one when the outer frame passes the wire)
+                    try:
+                        top.send(treeeq.to_node(t))
+                    except Exception as e:  # noqa
+                        acc.violation("layer-history:send-raises:%s" % type(e).__name__, "a send with a nested send inside raised %r" % (e,), {"dir": "layer-history", "ops": ops})
+                        break
+                else:
+                    ops.append("send")
+                    expected.append(t)
+                    try:
+                        top.send(treeeq.to_node(t))
+                    except Exception as e:  # noqa
+                        acc.violation("layer-history:send-raises:%s" % type(e).__name__, "a plain send raised %r" % (e,), {"dir": "layer-history", "ops": ops})
+                        break
+        frames = [bytes(bytearray(x)) for x in wire.sent]
+        w = {"dir": "layer-history", "case": k, "ops": ops}
+        acc.case(["lh", k, ops], nontrivial=("refused" in ops or "nested" in ops))
+        if len(frames) != len(expected):
+            acc.violation("layer-history:frame-count", "%d stanzas were accepted, %d frames reached the wire (history %s)" % (len(expected), len(frames), ops), w)
+            continue
+        # a nested send's frame comes after the outer frame was handed down, i.e. in list order of `expected` except that the
+        # nested one was appended while the outer one was passing: both orders of those two are the same here
+        okk = True
+        for i, (f, t) in enumerate(zip(frames, expected)):
+            try:
+                back = refcodec.decode(f)
+            except refcodec.FormatError as e:
+                acc.violation("layer-history:invalid-frame:%s" % ("after-refusal" if "refused" in ops[:i + 1] else "nested" if "nested" in ops else "plain"),
+                              "frame %d of history %s is not a valid encoding: %s" % (i, ops, e), w)
+                okk = False
+                break
+            d = treeeq.diff(t, back)
+            if d:
+                acc.violation("layer-history:frame-differs", "frame %d of history %s decodes to another stanza: %s" % (i, ops, d), w)
+                okk = False
+                break
+        if okk:
+            acc.count("layer_history_ok")
 
 
 def judge_lib_decode(acc, dec, frame, tree, w, taken):
@@ -282,6 +364,7 @@ def run(spec, acc):
 
     if spec["kind"] == "dict+fixed":
         check_dictionary(acc, td)
+        layer_histories(acc, seed, 300 if spec.get("full", 600) <= 600 else 6000)
         r = gen.rng(seed, ID, "fixed")
         for cid, tree in fixed_dir2_cases():
             dir1(acc, cid, tree, enc)
